@@ -590,3 +590,37 @@ mod tests {
         }
     }
 }
+
+#[cfg(it4innovations_hyperqueue_verif)]
+impl ResourcePool {
+    /// Verification hook: plain copy of the pool state (see `crate::verif::alloc`).
+    pub fn verif_snapshot(&self) -> crate::verif::alloc::PoolSnapshot {
+        use crate::verif::alloc::PoolSnapshot;
+        fn sorted(m: &Map<ResourceIndex, ResourceFractions>) -> Vec<(u32, u32)> {
+            let mut v: Vec<(u32, u32)> = m.iter().map(|(k, f)| (k.as_num(), *f)).collect();
+            v.sort_unstable();
+            v
+        }
+        match self {
+            ResourcePool::Empty => PoolSnapshot::Empty,
+            ResourcePool::Indices(pool) => PoolSnapshot::Indices {
+                full: pool.full_size.total_fractions(),
+                free: pool.indices.iter().map(|i| i.as_num()).collect(),
+                fractions: sorted(&pool.fractions),
+            },
+            ResourcePool::Groups(pool) => PoolSnapshot::Groups {
+                full: pool.full_size.total_fractions(),
+                free: pool
+                    .indices
+                    .iter()
+                    .map(|g| g.iter().map(|i| i.as_num()).collect())
+                    .collect(),
+                fractions: pool.fractions.iter().map(sorted).collect(),
+            },
+            ResourcePool::Sum(pool) => PoolSnapshot::Sum {
+                full: pool.full_size.total_fractions(),
+                free: pool.free.total_fractions(),
+            },
+        }
+    }
+}
